@@ -503,6 +503,27 @@ def r_reserve_only(F, R, cat=None):
                     detail="%d effects on self, all in {read,measure,reserve}" % touched,
                     nontrivial=touched > 0)
             n += 1
+    # reserve bodies that a crate trait *provides* (Storage::reserve_regions): they have no fields
+    # to look at, but replacing the receiver wholesale (`*self = Self::merge_regions(..)`) is the
+    # same breach -- whatever capacity (and contents) it had is dropped
+    for b in F.bodies.values():
+        if b.kind != "AssocFn" or b.in_tests() or not b.owner.get("in_trait") or \
+                b.name not in ("reserve", "reserve_items", "reserve_regions"):
+            continue
+        R.saw(b)
+        for bi in sorted(b.live_blocks()):
+            for st in b.blocks[bi]["stmts"]:
+                if st["k"] == "assign" and st["place"]["l"] == 1 and [e["k"] for e in st["place"]["p"]] == ["deref"]:
+                    R.check("R-RESERVE-ONLY", b.label(), False, construct="assign = on self", where="%s:%s" % (b.file, st["line"]),
+                            detail="the provided reserve path replaces the receiver by a new value: an earlier, larger reservation "
+                                   "(an empty but pre-sized storage) is dropped and the reported capacity shrinks")
+                    n += 1
+            t = b.term(bi)
+            if t["k"] == "call" and t.get("dest") and t["dest"]["l"] == 1 and [e["k"] for e in t["dest"]["p"]] == ["deref"]:
+                R.check("R-RESERVE-ONLY", b.label(), False, construct="assign = on self", where="%s:%s" % (b.file, t["line"]),
+                        detail="the provided reserve path replaces the receiver by the result of %s: an earlier, larger reservation "
+                               "(an empty but pre-sized storage) is dropped and the reported capacity shrinks" % callee_tag(t.get("callee"))[1])
+                n += 1
     R.floor("R-RESERVE-ONLY", "reserve bodies", nbodies, 30)
 
 
@@ -998,6 +1019,7 @@ def r_cover_heap(F, R, cat=None):
                     check_direct_callback(R, b, ctx, effs, self_path=("f:" + fd["name"],))
                     n += 1
             check_callback_wrappers(F, R, b)
+            check_conditional_report(F, R, b)
     R.floor("R-COVER(heap_size)", "heap_size bodies", nb, 12)
 
 
@@ -1028,6 +1050,44 @@ def indexed_over_full_range(ctx, e, f):
     return []
 
 
+def check_conditional_report(F, R, b):
+    """heap_size reports every allocation it knows of: a call of the caller's callback that is
+    made only under a condition on the *size* being reported (`if total.size != 0 { callback(..) }`)
+    drops reports of storage that is allocated but empty -- after clear, or after a reserve -- so the
+    reported capacity shrinks although nothing was freed"""
+    from core import all_ctxs
+    from expr import facts_at, operand_tree, nobb, show
+    from r_alloc import walk
+    for ctx in all_ctxs(F, b):
+        if ctx.body is not b:
+            continue
+        for (bi, t) in b.calls():
+            tag = callee_tag(t.get("callee"))
+            if tag[1] not in ("call_mut", "call_once", "call") or len(t["args"]) < 2:
+                continue
+            if not any(r == ("arg", 2) for (r, p) in ctx.org.operand(t["args"][0])):
+                continue
+            tup = nobb(operand_tree(ctx, t["args"][1]))
+            if not (tup[0] == "agg" and len(tup[2]) == 2):
+                continue
+            size_t, cap_t = tup[2]
+            if size_t[0] == "const":
+                continue
+            hits = []
+            for f in facts_at(ctx, bi):
+                if f[0] not in ("Eq", "Ne", "Lt", "Le", "Gt", "Ge", "truthy"):
+                    continue  # (not the no-overflow facts of the arithmetic that computes the size)
+                for x in f[1:3]:
+                    if isinstance(x, tuple) and any(nd == size_t for nd in walk(nobb(x))):
+                        hits.append(f)
+            if hits:
+                R.check("R-COVER(heap_size)", b.label(), False, construct="every report is passed on, whatever its size",
+                        where="%s:%s" % (b.file, t["line"]),
+                        detail="the callback is called only under a condition on the size being reported (%s): storage that is "
+                               "allocated but holds nothing (after clear, after a reserve) is not reported, the reported capacity "
+                               "shrinks without anything being freed" % show(size_t)[:60])
+
+
 def check_callback_wrappers(F, R, b):
     """a closure that heap_size hands to a child in place of the caller's callback must pass
     every report on: the call of the captured callback is not control-dependent on the reported
@@ -1048,6 +1108,7 @@ def check_callback_wrappers(F, R, b):
             # a summarising closure (`|size, cap| total = (total.0 + size, total.1 + cap)`): every
             # captured accumulator it writes must add the reported value to its own old value
             from expr import trees as _trees, nobb as _nobb, show
+            went = {}  # parameter index -> bases (captured place minus its last component) it is accumulated into
             for xb in sorted(cb.live_blocks()):
                 for si, st in enumerate(cb.blocks[xb]["stmts"]):
                     if st["k"] != "assign" or not any(e["k"] == "deref" for e in st["place"]["p"]):
@@ -1058,6 +1119,24 @@ def check_callback_wrappers(F, R, b):
                     (r, p) = tg[0]
                     tgt = ("place", cb.key, r, tuple(p))
                     val = _nobb(_trees(cctx, cctx.org.rvalue(st["rv"], xb, si)))
+                    for nd_ in walk(val):
+                        if nd_ not in params or not p:
+                            continue
+                        if str(p[-1]).startswith("f:") and len(p) >= 2:
+                            went.setdefault(nd_[2][1], set()).add((tuple(p[:-1]), st["line"]))
+                        elif str(p[0]).startswith("u:") and len(p) == 1:
+                            # a field of a parent local captured on its own (`&mut ok.1`): the parent's place
+                            k_ = int(p[0][2:])
+                            if k_ < len(ops) and ops[k_].get("k") in ("move", "copy") and not ops[k_]["place"]["p"]:
+                                rl_ = ops[k_]["place"]["l"]
+                                for pb_ in b.live_blocks():
+                                    for pst_ in b.blocks[pb_]["stmts"]:
+                                        if pst_["k"] == "assign" and pst_["place"]["l"] == rl_ and not pst_["place"]["p"] and \
+                                                pst_["rv"]["k"] == "ref" and pst_["rv"]["place"]["p"] and \
+                                                pst_["rv"]["place"]["p"][-1]["k"] == "field":
+                                            pp_ = pst_["rv"]["place"]
+                                            base_ = (("local", pp_["l"]),) + tuple(str(e_.get("name", e_["k"])) for e_ in pp_["p"][:-1])
+                                            went.setdefault(nd_[2][1], set()).add((base_, st["line"]))
                     comps = list(enumerate(val[2])) if val[0] == "agg" and val[1] == "tuple" else [(None, val)]
                     for (i, v) in comps:
                         own = tgt if i is None else ("place", cb.key, r, tuple(p) + ("f:%d" % i,))
@@ -1070,6 +1149,16 @@ def check_callback_wrappers(F, R, b):
                                     detail="component %s := %s" % ("" if i is None else i, show(v)[:60]) +
                                     ("" if keeps else ": the reported value overwrites what earlier reports contributed "
                                                       "(a child that reports several pairs is under-counted)"))
+            if not calls_cb and len(went) >= 2:
+                ks = sorted(went)
+                b0 = {x[0] for x in went[ks[0]]}
+                b1 = {x[0] for x in went[ks[-1]]}
+                if b0 and b1 and not (b0 & b1):
+                    R.check("R-COVER(heap_size)", b.label(), False, construct="size and capacity of one report go to the same total",
+                            where="%s:%s" % (cb.file, sorted(went[ks[-1]])[0][1]),
+                            detail="the summarising callback adds the reported size to %s but the reported capacity to %s: the pair "
+                                   "reported for the first total has capacity it does not own, the other one is short (used > capacity)" %
+                                   (sorted(b0)[0], sorted(b1)[0]))
         for (xb, t) in cb.calls():
             tag = callee_tag(t.get("callee"))
             if tag[1] not in ("call_mut", "call_once", "call") or not t["args"]:
@@ -1290,6 +1379,63 @@ def r_storage_clear(F, R, cat=None):
                 where=b.where(), detail="emptying calls: %s" % (why or "none") +
                 ("" if ok else "; some path returns without one of them: elements survive the clear"))
     R.floor("R-RESET", "Storage::clear impls for std containers", n, 1)
+
+
+def r_merge_sources_polled(F, R, cat=None):
+    """merge_regions / merge_capacity / reserve_regions size (and, for the coded regions, build)
+    their result from *all* the sources they are handed.  An iterator over the sources that was
+    polled once (`rest.next()` to see whether there is any source) and is then handed on as the
+    list of sources has lost its first element: the first source contributes nothing.  Positive
+    evidence: a local iterator is the receiver of an `Iterator::next` call outside any loop and is
+    afterwards moved into another call."""
+    from expr import in_loop, reach_strict
+    names = ("merge_regions", "merge_capacity", "reserve_regions")
+    n = 0
+    for b in F.bodies.values():
+        if b.in_tests() or b.derived or b.kind == "Closure" or b.name not in names:
+            continue
+        refs = {}  # local holding `&mut X` -> X
+        for bi in b.live_blocks():
+            for st in b.blocks[bi]["stmts"]:
+                if st["k"] == "assign" and not st["place"]["p"] and st["rv"]["k"] == "ref" and st["rv"].get("mut") and \
+                        not st["rv"]["place"]["p"]:
+                    refs[st["place"]["l"]] = st["rv"]["place"]["l"]
+        for (bi, t) in b.calls():
+            if callee_tag(t.get("callee")) != ("Iterator", "next") or len(t["args"]) != 1 or in_loop(b, bi):
+                continue
+            a0 = t["args"][0]
+            if a0["k"] not in ("copy", "move") or a0["place"]["p"] or a0["place"]["l"] not in refs:
+                continue
+            x = refs[a0["place"]["l"]]
+            if 1 <= x <= b.nargs:
+                pass  # the parameter itself: same thing
+            n += 1
+            later = reach_strict(b, bi)
+            alias = {x}
+            for _ in range(4):
+                for xb in later:
+                    for st in b.blocks[xb]["stmts"]:
+                        if st["k"] == "assign" and not st["place"]["p"] and st["rv"]["k"] == "use" and \
+                                st["rv"]["op"]["k"] in ("move", "copy") and not st["rv"]["op"]["place"]["p"] and \
+                                st["rv"]["op"]["place"]["l"] in alias:
+                            alias.add(st["place"]["l"])
+            for (ci, ct) in b.calls():
+                if ci not in later or ct is t:
+                    continue
+                if any(a["k"] in ("move", "copy") and not a["place"]["p"] and a["place"]["l"] in alias for a in ct.get("args", [])):
+                    R.saw(b)
+                    if any(callee_tag(zt.get("callee"))[1] in ("chain", "once", "peekable", "successors") for (zi, zt) in b.calls() if zi in later):
+                        R.undecided_site("R-COVER(merge_regions)", b.label(), "a polled source iterator is handed on at %s:%s, and the body "
+                                         "also chains iterators: whether the polled element is put back is not decided" % (b.file, ct["line"]))
+                        break
+                    R.check("R-COVER(%s)" % ("merge_regions" if b.name != "reserve_regions" else "reserve_regions"), b.label(), False,
+                            construct="every source contributes",
+                            where="%s:%s" % (b.file, ct["line"]),
+                            detail="the iterator over the sources was polled at line %s (outside any loop) and is then handed on as the "
+                                   "list of sources: the first source is missing from it -- what only that source knows (its "
+                                   "dictionary entries, its symbol counts, its sizes) is not in the result" % t["line"])
+                    break
+    R.info("R-COVER: %d single polls of a source iterator inspected" % n)
 
 
 def r_merge_sources_may_be_empty(F, R, cat=None):
